@@ -38,7 +38,7 @@ def main(argv=None):
     seed = int(os.environ.get("VERIF_SEED", "0") or 0)
     t0 = time.time()
     tier = a.tier if a.tier in ("quick", "thorough") else "quick"
-    opts = {"timeout_ms": 8000 if tier == "quick" else 60000, "unroll": 2 if tier == "quick" else 3, "fork": 6}
+    opts = {"timeout_ms": 8000 if tier == "quick" else 60000, "unroll": 2 if tier == "quick" else 3, "fork": 6, "refute_budget_s": 40 if tier == "quick" else 300}
     if tier == "thorough":
         from . import solve
 
@@ -105,6 +105,39 @@ def main(argv=None):
                 undecided.append((fq, f"{clause}: solver answered unknown in proof mode and found no counter-model by unrolling"))
         for r in res["prove"]:
             max_time = max(max_time, r["time"])
+    # site obligations (K2/K3): discharged by syntactic scans of the whole package
+    site_records = []
+    if getattr(pm, "SITE_CHECKS", None) and not a.only:
+        from .repo import Repo
+
+        repo = Repo()
+        for name, fn in pm.SITE_CHECKS:
+            try:
+                recs = fn(repo)
+            except Exception as e:
+                import traceback
+
+                faults.append((name, "site scan crashed: " + traceback.format_exc()[-1500:]))
+                continue
+            for r in recs:
+                site_records.append(r)
+                n_obl += 1
+                by_kind[r["kind"]] = by_kind.get(r["kind"], 0) + 1
+                if r["status"] == "proved":
+                    n_dis += 1
+                elif r["status"] == "assumed":
+                    n_dis += 1
+                else:
+                    hit = match_known_site(known, r["name"])
+                    if hit is not None:
+                        ok, detail = confirm_known(pm, hit)
+                        if ok:
+                            known_hits.append((hit, r["name"], r["clause"]))
+                            n_dis += 0
+                            continue
+                    violations.append((r["name"], r["clause"], {"witness": {"model": r.get("detail"), "name": r["name"]}, "site": True, "n": 1, "proved": 0}))
+        if len(samples) < 8:
+            samples.extend({"obligation": r["name"], "status": r["status"], "by": r["backend"]} for r in site_records[:2])
     # bounded stand-ins and conformance checks of the property (never counted as proved)
     bounded = []
     for b in getattr(pm, "BOUNDED", []):
@@ -184,8 +217,9 @@ def main(argv=None):
         "wall_s": round(wall, 2),
         "violations": n_viol,
     }
-    os.makedirs(os.path.join(ROOT, "evidence"), exist_ok=True)
-    with open(os.path.join(ROOT, "evidence", pid + ".json"), "w") as f:
+    evdir = os.environ.get("VERIF_EVIDENCE_DIR") or os.path.join(ROOT, "evidence")
+    os.makedirs(evdir, exist_ok=True)
+    with open(os.path.join(evdir, pid + ".json"), "w") as f:
         json.dump(ev, f, indent=1)
     print(f"{pid}: obligations={n_obl} discharged={n_dis} violations={n_viol} known={len(known_hits)} undecided={len(undecided)} faults={len(faults)} wall={wall:.1f}s exit={exit_code}")
     return exit_code
@@ -203,6 +237,13 @@ def _z3v():
 def match_known(known, fq, clause):
     for k in known:
         if k.get("function") == fq and clause.startswith(k.get("clause", "\0")):
+            return k
+    return None
+
+
+def match_known_site(known, name):
+    for k in known:
+        if k.get("site") and name == k["site"]:
             return k
     return None
 
